@@ -90,5 +90,36 @@ func (s *Struct) validate() error {
 			return fmt.Errorf("%v: %w", s.Def.Name, err)
 		}
 	}
+
+	// Structs are embedded by value, a struct cannot contain itself
+	if s.contains(s, nil) {
+		return fmt.Errorf("%v: struct contains itself", s.Def.Name)
+	}
 	return nil
+}
+
+// contains returns true if the struct contains a target struct directly or via nested structs.
+func (s *Struct) contains(target *Struct, visited []*Struct) bool {
+	for _, v := range visited {
+		if v == s {
+			return false
+		}
+	}
+	visited = append(visited, s)
+
+	for _, field := range s.Fields.Values() {
+		ref := field.Type.Ref
+		if field.Type.Kind != KindStruct || ref == nil || ref.Struct == nil {
+			continue
+		}
+
+		next := ref.Struct
+		if next == target {
+			return true
+		}
+		if next.contains(target, visited) {
+			return true
+		}
+	}
+	return false
 }
